@@ -199,6 +199,8 @@ class Strategy:
             return self._zero_leaf(q)
 
         def settle(r: Rat) -> Rat:
+            if len(r.n.t) + len(r.d.t) > 400:
+                return r                # (substitution into a very large expression is not attempted: the open tests stay, the rules answer "not recognised")
             for _ in range(8):
                 mp = {}
                 for a in sym.all_atoms(r):
@@ -216,6 +218,14 @@ class Strategy:
                 sf.value, sf.lo, sf.hi, sf.index = settle(sf.value), settle(sf.lo), settle(sf.hi), settle(sf.index)
             except (ZeroDivisionError, sym.Unknown):
                 pass
+        # the window rules read which samples a store covers from the bounds of its sample loop: a store that is made for some samples of that range
+        # only (a per-sample choice of the piece) is another shape
+        ia = _atom(self.i)
+        for sf in self.stores:
+            per_sample = [str(g)[:80] for g in sf.guard if any(ia in sym.all_atoms(r_) for r_ in g.rats())]
+            if per_sample and not sf.single:
+                self.issues.append(f"{sf.loc()} the sample written is selected by a per-sample test ({per_sample[0]}), not by the bounds of the sample loop")
+                break
 
     def window_key(self, r: Rat) -> Optional[Tuple[str, int]]:
         """('AL' | 'AR', c) for entry k + c of the left / right window table, ('BL' | 'BR', c) for int(beta * entry)"""
@@ -255,7 +265,28 @@ class Strategy:
         loops = [l for l in (ev.loops if ev is not None else []) if getattr(l, 'node', None) is not None and isinstance(l.node, (ast.For, ast.While))]
         if not loops:
             return True
-        return any(isinstance(n_, ast.Subscript) and isinstance(n_.ctx, ast.Store) for n_ in ast.walk(loops[0].node))
+        node = loops[0].node
+        memo = self.__dict__.setdefault('_writes_samples', {})
+        if id(node) not in memo:
+            writes = any(isinstance(n_, ast.Subscript) and isinstance(n_.ctx, ast.Store) for n_ in ast.walk(node))
+            if not writes:
+                # ... or hands an array to a helper of the repository that writes into it
+                for n_ in ast.walk(node):
+                    if isinstance(n_, ast.Call):
+                        try:
+                            r_ = self.prog.resolve_expr(self.rfa.module, n_.func, {})
+                        except Exception:
+                            r_ = None
+                        if r_ is not None and r_[0] == 'func' and ev.mutated_params(r_[2]):
+                            writes = True
+                            break
+                        if isinstance(n_.func, ast.Attribute) and isinstance(n_.func.value, ast.Name) and n_.func.value.id in ('self', 'cls'):
+                            m_ = self.prog.find_method(self.cls, n_.func.attr)
+                            if m_ is not None and ev.mutated_params(m_):
+                                writes = True
+                                break
+            memo[id(node)] = writes
+        return memo[id(node)]
 
     def _zero_leaf(self, q, during_evaluation: bool = False) -> Optional[bool]:
         r = None
